@@ -841,6 +841,9 @@ def _r7_switch_histories(ctx, rid=None):
         ("tensorflow", {"precision": "32b"}, ("tensorflow", "32b")),
         ("tensorflow", {"precision": "64b"}, ("tensorflow", "64b")), ("numpy", {"precision": "32b"}, ("numpy", "32b")), ("numpy", {}, ("numpy", "64b")),
         ("jax", {}, ("jax", "64b")), ("CONSTRUCT:jax:32b", {}, ("jax", "64b")), ("pytorch", {}, ("pytorch", "64b")), ("CONSTRUCT:pytorch:32b", {}, ("pytorch", "64b")),
+        # the precision spelled in upper case (accepted: the name is matched case-insensitively) means the same width, and is what
+        # the backend object is built with and reports
+        ("numpy", {"precision": "32B"}, ("numpy", "32b")), ("numpy", {"precision": "64B"}, ("numpy", "64b")), ("JAX", {"precision": "64B"}, ("jax", "64b")),
     ]
     for step, (arg, kw, want) in enumerate(history):
         before = this.attrs["state"]["current"][0]
